@@ -80,6 +80,23 @@ const HEADER_SNIPPETS: &[&str] = &[
     "%grmtools{a:",
     "%grmtools{a: [,,]}",
     "%grmtools{a, a, a: 1}",
+    // values of the keys the parsers convert (yacckind, recoverer, lexer flags), well-formed as
+    // section entries but wrong in one place each: constructor, argument, namespace, value type
+    "%grmtools{yacckind: Orignal(NoAction)}\n%%\nS: 'a';\n",
+    "%grmtools{yacckind: Grmtools(UserAction)}\n%%\nS: 'a';\n",
+    "%grmtools{yacckind: YaccKind::Eco(YaccOriginalActionKind::GenericParseTree)}\n%%\nS: 'a';\n",
+    "%grmtools{yacckind: Original(Nothing)}\n%%\nS: 'a';\n",
+    "%grmtools{yacckind: Wrong::Original(NoAction)}\n%%\nS: 'a';\n",
+    "%grmtools{yacckind: Original(Wrong::NoAction)}\n%%\nS: 'a';\n",
+    "%grmtools{yacckind: Foo}\n%%\nS: 'a';\n",
+    "%grmtools{yacckind: 3}\n%%\nS: 'a';\n",
+    "%grmtools{yacckind: \"Grmtools\"}\n%%\nS: 'a';\n",
+    "%grmtools{yacckind: [Grmtools]}\n%%\nS: 'a';\n",
+    "%grmtools{!yacckind}\n%%\nS: 'a';\n",
+    "%grmtools{yacckind: Grmtools, recoverer: Recovery::None}\n%%\nS -> (): 'a' {};\n",
+    "%grmtools{yacckind: Grmtools, recoverer: RecoveryKind::Sometimes}\n%%\nS -> (): 'a' {};\n",
+    "%grmtools{size_limit: true, octal: 3, case_insensitive: \"x\", nest_limit: [1]}\n%%\na 'A'\n",
+    "%grmtools{dot_matches_new_line: Yes(No), unicode: a::b, !size_limit}\n%%\na 'A'\n",
 ];
 
 const UNI_DIGITS: &[char] = &['\u{663}', '\u{ff11}', '\u{b2}', '\u{bd}', '\u{96f}', '\u{1d7d8}', '\u{2167}'];
